@@ -119,6 +119,28 @@ def gen_body(rng, names, depth, budget):
     return out
 
 
+def decorate(rng, body, d):
+    """Respell some include names with '.' / '..' segments (the directories all exist, so
+    lexical and physical resolution agree).  d = directory of the including file."""
+    tops = ["src", "inc1", "inc2"]
+    out = []
+    for l in body:
+        if l[0] == "Inc" and l[1][0] in ("Q", "A") and rng.random() < 0.3:
+            n = l[1][1]
+            r = rng.random()
+            if r < 0.35:
+                n2 = ["."] + n
+            elif r < 0.8:
+                # from any directory of depth len(d): climb one level and name a sibling
+                n2 = [".."] + ([rng.choice(tops)] if len(d) == 1 else [rng.choice(["sub", "."])]) + n
+            else:
+                n2 = n[:-1] + [".", n[-1]]
+            out.append(["Inc", [l[1][0], n2]])
+        else:
+            out.append(l)
+    return out
+
+
 def gen_case(rng):
     # header names (possibly with a sub-directory component)
     names = [[h] for h in rng.sample(HDRS, rng.randint(1, 3))]
@@ -131,8 +153,13 @@ def gen_case(rng):
         later = order[idx + 1:] if rng.random() < 0.85 else order   # mostly acyclic
         for d in rng.sample(DIRS, rng.randint(1, 3)):
             p = d + n
-            body = gen_body(rng, later, 0, 12)
-            body.append(["Def", f"IN_{'_'.join(p).replace('.', '_')}", "E"])   # fingerprint of which copy was read
+            body = decorate(rng, gen_body(rng, later, 0, 12), d)
+            if rng.random() < 0.5:
+                body.append(["Def", f"IN_{'_'.join(p).replace('.', '_')}", "E"])   # fingerprint of which copy was read
+            else:
+                # a body whose second pass differs from its first (exposes a header processed twice)
+                t = f"T_{'_'.join(p).replace('.', '_')}"
+                body += [["If", ["Defd", t]], ["Code"], ["Endif"], ["Def", t, "E"]]
             style = rng.random()
             if style < 0.35:
                 g = f"G_{'_'.join(p).replace('.', '_')}"
@@ -141,7 +168,7 @@ def gen_case(rng):
                 body = [["Once"]] + body
             files[pstr(p)] = [p, normalise(body)]
     main = ["src", "a.c"]
-    body = gen_body(rng, names, 0, 20)
+    body = decorate(rng, gen_body(rng, names, 0, 20), ["src"])
     # make sure the main file includes something
     body = gen_plain(rng, names)[:0] + [["Inc", [rng.choice(["Q", "A"]), rng.choice(names)]]] + body
     for m in FLAGS:
@@ -162,6 +189,11 @@ def gen_case(rng):
 
 
 CORPUS_EXTRA = [
+    # a #pragma once header reached through two spellings is processed once (its second pass would differ)
+    [[[["common", "once.h"], [["Once"], ["If", ["Defd", "SEEN"]], ["Code"], ["Endif"], ["Def", "SEEN", "E"]]],
+      [["src", "a.c"], [["Inc", ["Q", ["..", "common", "once.h"]]], ["Inc", ["Q", ["..", "common", ".", "once.h"]]],
+                        ["Inc", ["A", ["once.h"]]], ["Code"]]]],
+     [["src", "a.c"], [["common"]], [], []]],
     # the memo must not carry a resolution from one includer directory to another
     [[[["d1", "a.h"], [["Inc", ["Q", ["h.h"]]]]], [["d1", "h.h"], [["Def", "FROM_D1", "E"]]],
       [["d2", "b.h"], [["Inc", ["Q", ["h.h"]]]]], [["d2", "h.h"], [["Def", "FROM_D2", "E"]]],
